@@ -100,8 +100,14 @@ FIELD_NAMES = ["id", "name", "class", "class_", "from", "userId", "user_id", "_i
 def gen_sdl(rng):
     ntypes = rng.choice([1, 2, 3, 4])
     names = [f"T{i}" for i in range(ntypes)]
-    enums = ["E0"] if rng.random() < 0.6 else []
-    scalars = ["Date"] if rng.random() < 0.5 else []
+    # names that merely begin like the root operation types (which are skipped) or like introspection names
+    special = rng.sample(["QueryOptions", "MutationResult", "Queryable", "Mutations", "SubscriptionInfo", "QueryX", "MutationY"], 2)
+    if rng.random() < 0.5:
+        names[0] = special[0]
+        if ntypes > 2 and rng.random() < 0.5:
+            names[2] = special[1]
+    enums = [rng.choice(["E0", "E0", "QueryOrder", "MutationKind"])] if rng.random() < 0.6 else []
+    scalars = [rng.choice(["Date", "Date", "QueryCursor"])] if rng.random() < 0.5 else []
     ifaces = ["I0"] if rng.random() < 0.5 else []
     inputs = ["In0"] if rng.random() < 0.4 else []
     parts = []
